@@ -12,7 +12,7 @@ From Soy Require Import Proofs.SourceTieJs.
 From Soy Require Import Model.Bytes Model.Num Model.Values Model.Outcome Model.Ast Model.Utf8 Model.JsEscape
   Generated.Tables Model.JsGen Spec.Codec Spec.JsOut Proofs.Utf8Proofs Proofs.CodecProofs
   Proofs.JsGenProofs Proofs.JsGenInv Proofs.JsGenLit Proofs.JsGenDef
-  Spec.JsSyntax Spec.JsShape Proofs.JsWfBalance Proofs.JsWfFile.
+  Spec.JsSyntax Spec.JsShape Proofs.JsWfBalance Proofs.JsWfFile Proofs.JsWfStr.
 Open Scope N_scope.
 
 (* ---------------- what the escaper guarantees for one literal ---------------- *)
@@ -235,6 +235,16 @@ Print Assumptions C14_gen_output_parses_partial.
 Theorem C14_js_parse_balanced : forall md ts p, js_parse md ts = Some p -> bracket_balanced ts = true.
 Proof. exact js_parse_balanced. Qed.
 Print Assumptions C14_js_parse_balanced.
+
+(* a string literal as soyjs writes it -- quote, JSEscape of ANY byte string (valid UTF-8 or not, astral runes, quotes,
+   backslashes, line terminators, </script>), quote -- followed by anything: the byte lexer reads exactly one string
+   token and is back in normal mode right after the closing quote.  No template string can end its literal early or
+   swallow the text that follows it.  (This is the CStrLit case of "lex_bytes of the rendered chunks = lex_chunks".) *)
+Theorem C14_strlit_one_token : forall is_print q s rest, q = 39 \/ q = 34 ->
+  lex_text 0 LNormal (render_chunk is_print (CStrLit q s) ++ rest)
+  = option_map (fun '(ts, m) => (TStr :: ts, m)) (lex_text 0 LNormal rest).
+Proof. intros is_print q s rest Hq. exact (strlit_one_token is_print q Hq s rest). Qed.
+Print Assumptions C14_strlit_one_token.
 
 (* non-vacuity: the example file passes the check, its chunks and its BYTES lex to the same tokens, the parse
    defines ns.a.t; and the recogniser rejects what JavaScript rejects: 5.length, a missing bracket, a second default *)
